@@ -71,7 +71,7 @@ def _reads_field(handler, field):
     return False
 
 
-@rule("C19.regen-exhaustive", min_instances=30)
+@rule("C19.regen-exhaustive", min_instances=30, props=["C02"])
 def regen_exhaustive(ctx):
     """the expression re-emitter (defaults of def/block/page arguments, filter-call arguments) handles every expression class, operator and arguments field of the running interpreter's grammar, including the None cases"""
     db = ctx.db
@@ -213,7 +213,7 @@ FIND_CLASSES = {"ListComp": ["elt", "generators"], "SetComp": ["elt", "generator
                 "For": ["target", "iter", "body", "orelse"], "ExceptHandler": ["type", "body"], "Assign": ["targets", "value"]}
 
 
-@rule("C19.idents-fields", min_instances=12, props=["C04", "C13"])
+@rule("C19.idents-fields", min_instances=12, props=["C04", "C13", "C03"])
 def idents_fields(ctx):
     """FindIdentifiers: every overriding visitor covers the node's child fields on every branch; functions and lambdas bind parameters of every kind and evaluate their defaults in the enclosing scope"""
     db = ctx.db
@@ -443,7 +443,7 @@ def _continuation_flag_writes(fn):
     return out
 
 
-@rule("C19.remargin-siblings", min_instances=2)
+@rule("C19.remargin-siblings", min_instances=2, props=["C03"])
 def remargin_siblings(ctx):
     """the two scanners that decide 'inside a multi-line string / continuation' while a block is re-margined (lexer side and printer side) track the same lexical features"""
     db = ctx.db
